@@ -756,13 +756,14 @@ impl Cursor<'_> {
                 // preferred to is_digit(10), in rust lexer
                 if self.first().is_ascii_digit() {
                     self.eat_decimal_digits();
-                    match self.first() {
-                        'e' | 'E' => {
-                            self.bump();
-                            empty_exponent = !self.eat_float_exponent();
-                        }
-                        _ => (),
+                }
+                // In OQ3 the fractional digits are optional: `1.e3` is a float literal.
+                match self.first() {
+                    'e' | 'E' => {
+                        self.bump();
+                        empty_exponent = !self.eat_float_exponent();
                     }
+                    _ => (),
                 }
                 Float {
                     base,
